@@ -9,7 +9,7 @@ import wirecorr
 
 PROP_FILES = ["N2k/Props/C06.lean", "N2k/Props/C06Msg.lean"]
 LEAN_TARGETS = ["N2k.Props.C06", "N2k.Props.C06Msg"]
-SUITE_NAMES = ["wire-encoders", "wire-decoders", "encoder-messages"]
+SUITE_NAMES = ["wire-encoders", "wire-decoders", "encoder-messages", "encoder-shared-instance"]
 ASSUMPTIONS = ["frame level: identifiers < 2^32, at most 8 data bytes per frame; message level (C06_message_trip_*): Single/Fast definitions, canonical addressing (PDU1 PGN with low byte 0, broadcast PGN to 255), the decoder's record does not already hold the counter; that the payload decodes back to the field values is C09/C02",
                "Yacht Devices at message level is covered by the correspondence and the monitor, not by a theorem (the line needs the gateway's timestamp/direction tokens)",
                "text input on the strict grammar; the `A<sec>.<ms>` / `hh:mm:ss.mmm R` tokens the gateways prepend are supplied by the harness"]
@@ -23,7 +23,7 @@ def problem_relevant(p):
 
 def correspondence(ctx):
     import enccorr
-    return wirecorr.encode_suites(ctx) + wirecorr.decode_suites(ctx) + enccorr.suite_messages(ctx)
+    return wirecorr.encode_suites(ctx) + wirecorr.decode_suites(ctx) + enccorr.suite_messages(ctx) + enccorr.suite_shared_encoder(ctx)
 
 
 def standing_search(ctx):
